@@ -241,7 +241,7 @@ def mutate(t, rng):
 
 
 def report(ctx, traces, rej):
-    for x in rej[:200]:
+    for x in rej:
         t = traces[x.idx]
         if x.reached >= len(t["ev"]):
             continue
@@ -394,12 +394,21 @@ def run(ctx):
                      web_exhaustive_requests=nwexh, interpreter_accesses_ignored=A.AUDIT.interp,
                      web_status_codes={str(k): v for k, v in sorted(_codes(traces).items())},
                      outcomes=_outcomes(traces))
+    oc = _outcomes(traces)
+    for k in ("child/ok", "child/InsecurePath", "preauthChild/ok", "preauthChild/InsecurePath", "descendant/ok",
+              "descendant/InsecurePath", "web/acc0-served0", "web/acc1-served1", "web/acc1-served0", "web/acc2-served1"):
+        if not oc.get(k):
+            raise MachineryError("vacuity: no real execution with outcome %s" % k)
     for t in traces:
         kinds = {(e["e"], e.get("res"), len(e.get("acc", ())), len(e.get("served", ()))) for e in t["ev"]}
         ctx.note_trace(_slim(t), nontrivial=len(kinds) >= 2)
-    rej = ctx.validate("PathNSTrace", [spec_view(t) for t in traces], shard_size=ctx.pick(40, 100))
+    # PathNSTrace records an unexplained event and goes on, so every event of every batch is checked;
+    # each call / request is an independent real execution: count the accepted ones.
+    rej = ctx.validate("PathNSTrace", [spec_view(t) for t in traces], shard_size=max(20, -(-len(traces) // ctx.pick(4, 16))), count=False)
+    ctx.traces_ok += sum(len(t["ev"]) for t in traces) - len(rej)
     report(ctx, traces, rej)
     bad = {x.idx for x in rej}
+    ctx.extra["events_rejected"] = len(rej)
     if cex_idx is not None:
         ctx.extra["impl_string_prefix_mode"]["counterexample_rejected_on_real_code"] = cex_idx in bad
     good = [spec_view(t) for i, t in enumerate(traces) if i not in bad]
